@@ -139,28 +139,60 @@ class Unit:
         return g
 
 
+def _brace_profile(line):
+    """(net, lowest prefix) of curly-brace depth over one line, ignoring strings and comments"""
+    from . import rtok
+    net = 0
+    low = 0
+    try:
+        toks = rtok.tokenize(line)
+    except rtok.LexError:
+        return 0, 0
+    for tk in toks:
+        if tk[0] == 'p' and tk[1] == '{':
+            net += 1
+        elif tk[0] == 'p' and tk[1] == '}':
+            net -= 1
+            low = min(low, net)
+    return net, low
+
+
 def embed(golden, annotated, rightmost=False):
-    """indices in `annotated` (list of strings) of the lines that are the golden lines, or None"""
-    idx = []
-    if not rightmost:
-        j = 0
-        for g in golden:
-            while j < len(annotated) and annotated[j] != g:
-                j += 1
-            if j >= len(annotated):
-                return None
-            idx.append(j)
-            j += 1
-        return idx
-    j = len(annotated) - 1
-    for g in reversed(golden):
-        while j >= 0 and annotated[j] != g:
-            j -= 1
-        if j < 0:
-            return None
-        idx.append(j)
-        j -= 1
-    return list(reversed(idx))
+    """indices in `annotated` of the lines that are the golden (code) lines, or None.
+    Among all order-preserving embeddings the one chosen makes every group of inserted lines brace-balanced
+    (a contract `}` is never mistaken for a code `}`); ties are resolved leftmost."""
+    import sys
+    n, m = len(annotated), len(golden)
+    prof = [_brace_profile(t) for t in annotated]
+    dead = set()
+    sys.setrecursionlimit(max(10000, 4 * (n + m) + 100))
+    res = []
+
+    def go(j, g, depth):
+        if (j, g, depth) in dead:
+            return False
+        if j == n:
+            if g == m and depth == 0:
+                return True
+            dead.add((j, g, depth))
+            return False
+        # as a code line
+        if depth == 0 and g < m and annotated[j] == golden[g]:
+            res.append(j)
+            if go(j + 1, g + 1, 0):
+                return True
+            res.pop()
+        # as an inserted line
+        net, low = prof[j]
+        if depth + low >= 0 and (n - j - 1) >= (m - g):
+            if go(j + 1, g, depth + net):
+                return True
+        dead.add((j, g, depth))
+        return False
+
+    if go(0, 0, 0):
+        return list(res)
+    return None
 
 
 def position_map(golden, current):
@@ -185,6 +217,30 @@ def position_map(golden, current):
     return pos
 
 
+def _drop_dangling_else(group, prev_code_line):
+    """an inserted `else { proof .. }` block only makes sense directly after the `}` of the `if` it was written for;
+    when the code changed so that it no longer follows a closing brace, the hint is dropped (changed tree only)"""
+    k = 0
+    while k < len(group) and (group[k][0].strip() == '' or group[k][0].strip().startswith('//')):
+        k += 1
+    if k >= len(group) or not group[k][0].strip().startswith('else'):
+        return group
+    if prev_code_line.strip() == '}':
+        return group
+    depth = 0
+    e = k
+    seen_open = False
+    while e < len(group):
+        net, low = _brace_profile(group[e][0])
+        depth += net
+        if '{' in group[e][0]:
+            seen_open = True
+        e += 1
+        if seen_open and depth <= 0:
+            break
+    return group[:k] + group[e:]
+
+
 def weave_region(region, golden_lines, current_lines):
     """returns list of (text, kind, origin) with kind in {'code','contract'}"""
     ann = [t for t, _ in region.lines]
@@ -201,13 +257,26 @@ def weave_region(region, golden_lines, current_lines):
         else:
             groups[k].append((t, origin))
     pos = position_map(golden_lines, current_lines)
+    changed = current_lines != golden_lines
+    eq_map = {}
+    if changed:
+        sm = difflib.SequenceMatcher(None, golden_lines, current_lines, autojunk=False)
+        for tag, i1, i2, j1, j2 in sm.get_opcodes():
+            if tag == 'equal':
+                for d in range(i2 - i1):
+                    eq_map[i1 + d] = j1 + d
     by_pos = {}
     for k, g in enumerate(groups):
         if g:
+            if changed:
+                # an inserted `else { .. }` must still directly follow the closing brace it was written after
+                prev_ok = k > 0 and eq_map.get(k - 1) == pos[k] - 1
+                g = _drop_dangling_else(g, '}' if prev_ok else '')
             by_pos.setdefault(pos[k], []).extend(g)
     out = []
     for j, line in enumerate(current_lines):
-        for (t, origin) in by_pos.get(j, []):
+        grp = by_pos.get(j, [])
+        for (t, origin) in grp:
             out.append((t, 'contract', origin))
         out.append((line, 'code', (region.file, region.key, j)))
     for (t, origin) in by_pos.get(len(current_lines), []):
@@ -311,30 +380,4 @@ def lint_unit(unit, repo=None):
                     break
                 j += 1
             continue
-        # the leftmost embedding is the intended one iff every group of inserted lines is brace-balanced
-        # (a contract `}` mistaken for a code line would leave its group with an unmatched `{`)
-        code_at = set(a)
-        depth = 0
-        start = None
-        for j, t in enumerate(ann):
-            if j in code_at:
-                if depth != 0:
-                    problems.append('%s: inserted lines starting at region offset %d are not brace-balanced before code line %r; '
-                                    'mark the ambiguous contract line with //@' % (r.key, start, t))
-                    depth = 0
-                start = None
-                continue
-            if start is None:
-                start = j
-            from . import rtok
-            try:
-                for tk in rtok.tokenize(t):
-                    if tk[0] == 'p' and tk[1] in '{':
-                        depth += 1
-                    elif tk[0] == 'p' and tk[1] in '}':
-                        depth -= 1
-            except rtok.LexError:
-                pass
-        if depth != 0:
-            problems.append('%s: trailing inserted lines are not brace-balanced' % r.key)
     return problems
